@@ -296,6 +296,8 @@ type c18Sys struct {
 	probes []uint64 // keys, then every hash 0..mask not already present
 	limit  int64    // upper bound on an estimate
 	rb     [4][]byte
+	pure   ristretto.VerifSketch // tinyLFU engine: a bare sketch with the same seeds, for "estimate after aging == halved counter"
+	prb    [4][]byte
 }
 
 func c18NewSys(tiny bool, nc int64, seeds [4]uint64) (s *c18Sys, p any) {
@@ -306,6 +308,8 @@ func c18NewSys(tiny bool, nc int64, seeds [4]uint64) (s *c18Sys, p any) {
 			s.tl.SetSeeds(seeds)
 			s.mask = s.tl.Mask()
 			s.limit = 16
+			s.pure = ristretto.VerifNewSketch(nc)
+			s.pure.SetSeeds(seeds)
 		} else {
 			s.sk = ristretto.VerifNewSketch(nc)
 			s.sk.SetSeeds(seeds)
@@ -583,6 +587,25 @@ func c18Step(s, aux *c18Sys, n []uint8, e c18Ev, pre *c18Snap, estPre []int64, p
 		}
 		if !c18AllZero64(post.door) {
 			return &c18Viol{"C18/reset-keeps-doorkeeper", "after the aging reset the doorkeeper is not empty (first-access marks not forgotten)"}, false
+		}
+		if s.tiny {
+			// estimates age by halving: with the first-access marks forgotten, the estimate of every
+			// key is what the halved counters alone say (read through a bare sketch holding the same rows)
+			s.pure.RowsInto(&s.prb)
+			ok := true
+			for i := range s.prb {
+				ok = ok && len(s.prb[i]) == s.rowLen
+			}
+			if ok {
+				for i := range s.prb {
+					copy(s.prb[i], post.rows[i*s.rowLen:(i+1)*s.rowLen])
+				}
+				for i, h := range s.probes {
+					if want := s.pure.Estimate(h); estPost[i] != want {
+						return &c18Viol{"C18/estimate-after-aging-is-not-the-halved-counter", fmt.Sprintf("after the aging reset the estimate of %#x is %d, but its halved counters give %d (estimate before the reset: %d)", h, estPost[i], want, estPre[i])}, false
+					}
+				}
+			}
 		}
 		if post.incrs != 0 {
 			return &c18Viol{"C18/reset-keeps-incrs", fmt.Sprintf("after the aging reset incrs is %d", post.incrs)}, false
